@@ -37,6 +37,10 @@ def run(chk):
     for obs in pmap(lambda i: lanczos_svd_one(*ltasks[i]), len(ltasks)):
         for ob in obs:
             chk.add(ob)
+    chk.under_contract("cola.linalg.svd.svd.svd[Diagonal,Algorithm]")
+    for obs in pmap(lambda i: diag_one(("real", "complex")[i]), 2):
+        for ob in obs:
+            chk.add(ob)
     bounded(chk)
 
 
@@ -158,6 +162,58 @@ def one(rule, shape):
             ob.witness = dict(engine="SVD", rule=rule, shape=shape, clause=label)
         out.append(ob)
     return out
+
+
+def diag_one(dt):
+    """svd(Diagonal): the REAL rule on a symbolic diagonal d (index domain).  code == spec:  mag_i = |d_i|,  phase_i = d_i/|d_i| if |d_i| > 0 else 1,
+    U = Diagonal(phase), Sigma = Diagonal(mag), V = I; and the spec meets the svd contract:  mag >= 0,  phase_i mag_i = d_i (U Sigma V^H = A entrywise),
+    conj(phase_i) phase_i = 1 (a diagonal matrix with unimodular entries is unitary)."""
+    from props import krylov_common as K
+    from vcgen import kidx, symalg
+    from vcgen.rules import sym_dim
+    from cola.ops import operators as O
+    import sympy as sp
+    dtype = np.float64 if dt == "real" else np.complex128
+    cplx = dt == "complex"
+
+    def thunk():
+        n = sym_dim("n")
+        k = SInt(z3.Int(CTX.fresh("k")))
+        CTX.assume(z3.And(k.term >= 1, k.term <= n.term))
+        d = IArr.const("d", (n,), dtype)
+        A = O.Diagonal(d)
+        impl = find_impl("svd", "Diagonal", "Algorithm")
+        from cola.linalg.algorithm_base import Auto
+        U, S, V = impl(A, k, "LM", Auto())
+        goals = []
+        i = z3.Int(CTX.fresh("i"))
+        CTX.assume(z3.And(i >= 0, i < n.term))
+        di = kidx.one(d, i)
+        mag = kidx.one(kidx._abs(d), i)
+        if not (hasattr(U, "diag") and hasattr(S, "diag")):
+            raise Unsupported("U / Sigma are not Diagonal operators")
+        goals.append(("shapes: U, Sigma are n x n diagonal, V is the n x n identity",
+                      z3.And(iterm(U.diag.shape[0]) == n.term, iterm(S.diag.shape[0]) == n.term, z3.BoolVal(type(V).__name__.startswith("Identity")), iterm(V.shape[0]) == n.term,
+                             iterm(V.shape[1]) == n.term)))
+        goals.append(("Sigma_i = |d_i|", ents_expr(S.diag.at(i)) == mag))
+        goals.append(("phase_i = d_i / |d_i| where |d_i| > 0, and 1 where d_i = 0 (every non-zero entry is divided by its own modulus)",
+                      ents_expr(U.diag.at(i)) == z3.If(mag > 0, idx._mulv(di, alg.rinv(mag)), z3.RealVal(1))))
+        labels = {a.__name__ for a in getattr(U, "annotations", set())} | {a.__name__ for a in getattr(V, "annotations", set())}
+        goals.append(("reported labels on U and V are among Unitary / Stiefel / PSD-of-identity (justified by the two clauses below)", z3.BoolVal(labels <= {"Unitary", "Stiefel", "PSD", "SelfAdjoint"})))
+        # the spec meets the svd contract
+        if not cplx:
+            absd = z3.If(di >= 0, di, -di)
+            ph = z3.If(absd > 0, di / absd, z3.RealVal(1))
+            goals.append(("spec: Sigma >= 0, phase_i Sigma_i = d_i and phase_i^2 = 1 (U unitary, U Sigma V^H = A)", z3.And(absd >= 0, ph * absd == di, ph * ph == 1)))
+        else:
+            dz = sp.Symbol("d")
+            m_ = symalg.RS(dz * sp.conjugate(dz))
+            ph = dz / m_
+            ok1 = symalg.zero_after(ph * m_ - dz, [])[0]
+            ok2 = symalg.zero_after(sp.conjugate(ph) * ph - 1, [])[0]
+            goals.append(("spec (|d_i| > 0): phase_i Sigma_i = d_i and conj(phase_i) phase_i = 1; (d_i = 0): phase 1, Sigma 0 (|d| = 0 iff d = 0: Mathlib norm_eq_zero)", bool(ok1 and ok2)))
+        return goals
+    return K.run_paths(f"C16/svd[Diagonal,Algorithm;{dt}]", "cola.linalg.svd.svd.svd", thunk, dict(engine="SVD-BOUNDED", rule="diagonal"), keep_real=("svd",))
 
 
 def bounded(chk):
